@@ -80,7 +80,7 @@ func (c *Ctx) helperAssertGuarded(helper *ssa.Function, ta *ssa.TypeAssert) (str
 	}
 	var guards []guardInfo
 	for _, fn := range c.clientFuncs() {
-		valid := c.validatesType(fn, T)
+		valid := c.validatesType(fn, T) || c.calledOnlyAfterValidation(fn, T)
 		if !valid {
 			continue
 		}
@@ -166,6 +166,47 @@ func (c *Ctx) helperAssertGuarded(helper *ssa.Function, ta *ssa.TypeAssert) (str
 		}
 	}
 	return fmt.Sprintf("helper: all %d call sites are reachable only after an initialiser validated or installed %s (guard field set only there)", len(edges), T.String()), true
+}
+
+// calledOnlyAfterValidation: fn is the second phase of an initialiser: at every call site a call of a function that
+// validates T dominates the site, and the site is reachable only if that call returned a nil error.
+func (c *Ctx) calledOnlyAfterValidation(fn *ssa.Function, T types.Type) bool {
+	edges := c.callersOf(fn)
+	if len(edges) == 0 {
+		return false
+	}
+	for _, e := range edges {
+		if e.Site == nil {
+			return false
+		}
+		F := e.Caller.Func
+		okSite := false
+		allInstrs(F, func(in ssa.Instruction) {
+			call, ok := in.(*ssa.Call)
+			if !ok || okSite {
+				return
+			}
+			v := call.Call.StaticCallee()
+			if v == nil || v == fn || !InRootPkg(v) || !instrDominates(call, e.Site) || !c.validatesType(v, T) {
+				return
+			}
+			conds := ifsOn(F, func(x ssa.Value) bool {
+				bo, ok := x.(*ssa.BinOp)
+				if !ok || bo.Op != token.NEQ {
+					return false
+				}
+				k, isNil := bo.Y.(*ssa.Const)
+				return isNil && k.IsNil() && bo.X == ssa.Value(call)
+			})
+			if len(conds) > 0 && onlyIf(F, e.Site, conds, false) {
+				okSite = true
+			}
+		})
+		if !okSite {
+			return false
+		}
+	}
+	return true
 }
 
 // validatesType: every success return of fn follows either a comma-ok assertion to T with ok == true, or a call that
